@@ -34,11 +34,30 @@ ASSUMPTIONS = c01.ASSUMPTIONS + [
 
 @st.composite
 def corpus_case(draw, tier="quick"):
-    n = 22 if tier == "quick" else 40
+    n = 20 if tier == "quick" else 40
     entries = []
-    for _ in range(n):
-        c = draw(G.call_case(quick=True, backends=[None, "numpy", "numpy.numpylike", None]))
+    while len(entries) < n:
         mode = draw(st.integers(0, 9))
+        B = [None, "numpy", "numpy.numpylike", None]
+        if mode in (2, 4):
+            # implicit output (the scalar-op default is chosen from a set of candidate expressions)
+            c = draw(G.call_case(ops=G.FAMILY_OPS["elementwise"] + G.REDUCE + G.ARGFIND, quick=True, implicit=True, min_inputs=2, backends=B, flags={"full_inputs": draw(st.booleans())}))
+            c["desc"] = X.p_desc(c["ins"])
+            c["short"] = True
+        elif mode == 3:
+            # the same call with tensor factories of two different signature kinds (cache-key twins)
+            c = draw(G.call_case(quick=True, factories=True, backends=["numpy", "numpy.numpylike", None]))
+            kinds = ["shape", "shape_name", "all_optional", "var_kwargs", "kwonly_argindex"]
+            c["fkinds"] = [draw(st.sampled_from(kinds)) for _ in c["ins"]]
+            entries.append(c)
+            import copy as _copy
+
+            c2 = _copy.deepcopy(c)
+            c2["fkinds"] = [draw(st.sampled_from(kinds)) for _ in c["ins"]]
+            entries.append(c2)
+            continue
+        else:
+            c = draw(G.call_case(quick=True, backends=B))
         if mode == 0 and c["meta"].get("minimal"):
             k = c["meta"]["minimal"][draw(st.integers(0, len(c["meta"]["minimal"]) - 1))]
             c["sizes"] = {kk: v for kk, v in c["sizes"].items() if kk != k}
@@ -52,6 +71,7 @@ def corpus_case(draw, tier="quick"):
                 c["corrupt_shape"] = {str(j): shp}
                 c["ill"] = "changed_dim"
         entries.append(c)
+    n = len(entries)
     nchild = 6 if tier == "quick" else 12
     cfgs = []
     for i in range(nchild):
@@ -61,6 +81,7 @@ def corpus_case(draw, tier="quick"):
                 "hashseed": ["0", "1", "2", "3", "random", "12345", "7", "99", "random", "4242", "31337", "8"][i % 12],
                 "uuid_mode": ["real", "ascending", "descending", "shuffled"][i % 4],
                 "uuid_seed": draw(st.integers(0, 1000)),
+                "child_index": i,
                 "order": order,
                 "reps": [draw(st.integers(1, 3)) for _ in range(n)],
             }
@@ -130,6 +151,10 @@ def evaluate(rc, stats):
         feats = G.features(case)
         if len(case["ins"]) >= 2 or feats["numeric"] or feats["ellipsis"]:
             stats.nt(G.canon_key(case))
+        if case.get("short"):
+            stats.count("entries_implicit_output")
+        if case.get("fkinds"):
+            stats.count("entries_factory")
         ref = outs[0]["results"][key][0]
         stats.count("outcome:" + ref[0])
         for ci, o in enumerate(outs):
@@ -144,7 +169,7 @@ def evaluate(rc, stats):
                         )
                     )
                     break
-            g = o["graphs"][key]
+            g = o["graphs"].get(key, ["skipped"])
             if g[0] == "ok" and (not g[1] or not g[2]):
                 viols.append(
                     Violation(
@@ -172,7 +197,7 @@ def make_strategy(tier, k):
 
 
 def worker(k, n, tier, seed, known_buckets, extra):
-    fr = standard_worker(PROP, make_strategy(tier, k), evaluate, k, n, tier, seed, known_buckets, quick_examples=3 * n - 1, thorough_examples=24 * n, shrink_quick=60.0, shrink_thorough=300.0)
+    fr = standard_worker(PROP, make_strategy(tier, k), evaluate, k, n, tier, seed, known_buckets, quick_examples=3 * n - 1, thorough_examples=30 * n, shrink_quick=60.0, shrink_thorough=300.0)
     # evaluations = corpus entries executed, not corpora
     fr["extra"]["corpora"] = fr["evaluations"]
     fr["evaluations"] = fr["hist"].get("entries", 0)
@@ -180,4 +205,6 @@ def worker(k, n, tier, seed, known_buckets, extra):
 
 
 def run(tier, seed, known_buckets):
-    return standard_run(PROP, tier, seed, known_buckets)
+    # every worker keeps 3 child interpreters busy: 5 workers saturate the 16 cores
+    frags = common.run_workers(PROP, 5, tier, seed, known_buckets, None)
+    return common.merge_fragments(frags)
